@@ -202,6 +202,12 @@ class CHKUploadHelper(Referenceable, upload.CHKUploader):  # type: ignore # warn
             # we don't remember uploading this file
             self.log("no ciphertext yet", level=log.NOISY)
 
+        if not hasattr(self, "_reader"):
+            # This upload has already finished (or failed): a second client
+            # was told to join it just before that happened. There is
+            # nothing left to fetch from its reader; hand it the outcome.
+            return self._finished_observers.when_fired()
+
         # let our fetcher pull ciphertext from the reader.
         self._fetcher.add_reader(reader)
         # and also hashes
